@@ -27,6 +27,12 @@ CHECKS = {
     design="5/C19",
     note="Trusted: Lean kernel; the harness's independent default; model = implementation sampled; flatten() tuples are outside the Lean model (text differential of rank-order only). Known finding: take-term-first Einsums take their default order from the first product term.",
     technique="Lean 4 proof (schedule-independent in-place expansion = canonical order) + omitted-vs-explicit text differential on the real compiler"),
+ "C14": dict(
+    category="proof",
+    text="Lean theorems C14.rollup / rollup_registered / build_some: for every list of fusion blocks, every registration of components per Einsum and every assignment of component times, the expression built by the model of Collector.__build_time evaluates to the sum over blocks of the maximum over the block's active components of that component's time summed over the block's Einsums (max of nothing = 0), whatever order the components are enumerated in. Tie per real metrics compilation: model expression = the emitted right-hand side of metrics[\"time\"]; its leaves are exactly the registered (einsum, component) pairs, once each (evaluated in Lean); every registered pair has exactly one time assignment in the dump; each divisor equals (clock frequency | bandwidth) x instance count computed by the harness from the raw architecture YAML; executed dumps are rolled up independently.",
+    design="5/C14",
+    note="Trusted: Lean kernel; model = implementation compared per compilation (sampled over specifications); harness's reading of the architecture YAML; numerators (operation/bit counts) are not modelled; Int stands in for the ordered field of times.",
+    technique="Lean 4 proof (denotational evaluation of the generated roll-up expression) + per-compilation correspondence and independent recomputation of divisors"),
 }
 
 NOT_YET = {}
